@@ -888,3 +888,244 @@ Proof.
   rewrite (aget_nth _ (i + l) _ (psums_nth 0 (widths_of s) (i + l)%nat ltac:(lia))). cbn [bind].
   rewrite !Z.add_0_l. reflexivity.
 Qed.
+
+(* ---------- newGroup / Groups() ---------- *)
+
+Lemma skipn_nth_cons {A} (l : list A) : forall i x,
+  nth_error l i = Some x -> skipn i l = x :: skipn (S i) l.
+Proof.
+  induction l as [|y l IH]; intros i x H; [destruct i; discriminate H|].
+  destruct i as [|i]; [cbn in H; injection H as ->; reflexivity|].
+  cbn [nth_error] in H. cbn [skipn]. rewrite (IH i x H). reflexivity.
+Qed.
+
+Lemma firstn_S_last {A} (l : list A) : forall n x,
+  nth_error l n = Some x -> firstn (S n) l = firstn n l ++ [x].
+Proof.
+  induction l as [|y l IH]; intros n x H; [destruct n; discriminate H|].
+  destruct n as [|n]; [cbn in H; injection H as ->; reflexivity|].
+  cbn [nth_error] in H. cbn [firstn app]. rewrite <- (IH n x H). reflexivity.
+Qed.
+
+(* the capture words read as (index, length) pairs *)
+Fixpoint cap_pairs (caps : list Z) : list (Z * Z) :=
+  match caps with
+  | a :: b :: rest => (a, b) :: cap_pairs rest
+  | _ => []
+  end.
+
+Lemma cap_pairs_nth caps : forall j a b,
+  nth_error (cap_pairs caps) j = Some (a, b) ->
+  aget caps (Z.of_nat j * 2) = Ok a /\ aget caps (Z.of_nat j * 2 + 1) = Ok b.
+Proof.
+  induction caps as [caps IH] using (well_founded_induction (Wf_nat.well_founded_ltof _ (@length Z))).
+  intros j a b H. destruct caps as [|x [|y rest]]; try (destruct j; discriminate H).
+  cbn [cap_pairs] in H. destruct j as [|j].
+  - cbn [nth_error] in H. injection H as -> ->. split; reflexivity.
+  - cbn [nth_error] in H.
+    destruct (IH rest ltac:(unfold ltof; cbn [length]; lia) j a b H) as [H1 H2].
+    unfold aget, znth in *.
+    replace (Z.of_nat (S j) * 2 <? 0) with false by lia.
+    replace (Z.of_nat (S j) * 2 + 1 <? 0) with false by lia.
+    replace (Z.of_nat j * 2 <? 0) with false in H1 by lia.
+    replace (Z.of_nat j * 2 + 1 <? 0) with false in H2 by lia.
+    replace (Z.to_nat (Z.of_nat (S j) * 2)) with (S (S (Z.to_nat (Z.of_nat j * 2)))) by lia.
+    replace (Z.to_nat (Z.of_nat (S j) * 2 + 1)) with (S (S (Z.to_nat (Z.of_nat j * 2 + 1)))) by lia.
+    cbn [nth_error]. split; assumption.
+Qed.
+
+Lemma cap_pairs_length caps : length (cap_pairs caps) = Nat.div2 (length caps).
+Proof.
+  induction caps as [caps IH] using (well_founded_induction (Wf_nat.well_founded_ltof _ (@length Z))).
+  destruct caps as [|x [|y rest]]; try reflexivity.
+  cbn [cap_pairs length Nat.div2]. rewrite IH by (unfold ltof; cbn [length]; lia). reflexivity.
+Qed.
+
+Lemma new_group_caps_spec caps : forall n i,
+  (i + n <= length (cap_pairs caps))%nat ->
+  new_group_caps caps (Z.of_nat i) n = Ok (firstn n (skipn i (cap_pairs caps))).
+Proof.
+  induction n as [|n IH]; intros i H; [reflexivity|].
+  cbn [new_group_caps].
+  destruct (nth_error (cap_pairs caps) i) as [[a b]|] eqn:E;
+    [|apply nth_error_None in E; lia].
+  destruct (cap_pairs_nth caps i a b E) as [H1 H2]. rewrite H1, H2. cbn [bind].
+  replace (Z.of_nat i + 1) with (Z.of_nat (S i)) by lia.
+  rewrite IH by lia. cbn [bind]. f_equal.
+  rewrite (skipn_nth_cons _ i (a, b) E). reflexivity.
+Qed.
+
+Definition group_embedded (g : group) : Z * Z := (g_index g, g_length g).
+
+(* newGroup: the captures are the first capcount pairs, the embedded capture is the last one
+   (or the zero capture when there is none) *)
+Lemma new_group_spec caps (n : nat) :
+  (n <= length (cap_pairs caps))%nat ->
+  exists g, new_group caps (Z.of_nat n) = Ok g /\
+            g_caps g = firstn n (cap_pairs caps) /\
+            group_embedded g = last (g_caps g) (0, 0).
+Proof.
+  intros H. unfold new_group.
+  replace (Z.of_nat n <? 0) with false by lia. rewrite Nat2Z.id.
+  pose proof (new_group_caps_spec caps n 0 ltac:(lia)) as HC. cbn [Z.of_nat skipn] in HC.
+  destruct n as [|n].
+  - cbn [Z.of_nat]. cbn [Z.ltb Z.compare bind]. rewrite HC. cbn [bind firstn].
+    eexists. split; [reflexivity|]. split; reflexivity.
+  - replace (0 <? Z.of_nat (S n)) with true by lia.
+    destruct (nth_error (cap_pairs caps) n) as [[a b]|] eqn:E;
+      [|apply nth_error_None in E; lia].
+    destruct (cap_pairs_nth caps n a b E) as [H1 H2].
+    replace ((Z.of_nat (S n) - 1) * 2) with (Z.of_nat n * 2) by lia.
+    replace (Z.of_nat (S n) * 2 - 1) with (Z.of_nat n * 2 + 1) by lia.
+    rewrite H1, H2. cbn [bind]. rewrite HC. cbn [bind].
+    eexists. split; [reflexivity|]. cbn [g_caps group_embedded g_index g_length fst snd].
+    split; [reflexivity|].
+    rewrite (firstn_S_last _ n (a, b) E). rewrite last_last. reflexivity.
+Qed.
+
+Definition in_bounds (n : Z) (c : Z * Z) : Prop := 0 <= fst c /\ 0 <= snd c /\ fst c + snd c <= n.
+
+(* what the interpreter + tidy must establish for one group's storage (the lead's caps_in_bounds):
+   capcount pairs are stored, each an in-range (index, length) *)
+Definition stored_ok (n : Z) (caps : list Z) (cnt : Z) : Prop :=
+  0 <= cnt /\ (Z.to_nat cnt <= length (cap_pairs caps))%nat /\
+  Forall (in_bounds n) (firstn (Z.to_nat cnt) (cap_pairs caps)).
+
+Definition group_wf (n : Z) (g : group) : Prop :=
+  Forall (in_bounds n) (g_caps g) /\ group_embedded g = last (g_caps g) (0, 0).
+
+Lemma populate_spec n matches matchcount : forall k i,
+  (i + k <= length matchcount)%nat -> length matches = length matchcount ->
+  (forall j caps cnt, (i <= j < i + k)%nat -> nth_error matches j = Some caps ->
+                      nth_error matchcount j = Some cnt -> stored_ok n caps cnt) ->
+  exists gs, populate matches matchcount (Z.of_nat i) k = Ok gs /\ length gs = k /\
+             Forall (group_wf n) gs /\
+             (forall j caps cnt g, (j < k)%nat -> nth_error matches (i + j) = Some caps ->
+                nth_error matchcount (i + j) = Some cnt -> nth_error gs j = Some g ->
+                g_caps g = firstn (Z.to_nat cnt) (cap_pairs caps)).
+Proof.
+  induction k as [|k IH]; intros i Hi Hlen Hok.
+  - exists []. cbn [populate]. repeat split; try constructor. intros; lia.
+  - cbn [populate].
+    destruct (nth_error matches i) as [caps|] eqn:Em; [|apply nth_error_None in Em; lia].
+    destruct (nth_error matchcount i) as [cnt|] eqn:Ec; [|apply nth_error_None in Ec; lia].
+    rewrite (aget_nth _ i _ Em), (aget_nth _ i _ Ec). cbn [bind].
+    destruct (Hok i caps cnt ltac:(lia) Em Ec) as (Hc0 & Hcl & Hcb).
+    destruct (new_group_spec caps (Z.to_nat cnt) Hcl) as (g & Hg & Hgc & Hge).
+    rewrite Z2Nat.id in Hg by lia. rewrite Hg. cbn [bind].
+    replace (Z.of_nat i + 1) with (Z.of_nat (S i)) by lia.
+    destruct (IH (S i) ltac:(lia) Hlen) as (gs & Hgs & Hgl & Hgw & Hgn).
+    { intros j c2 n2 Hj. apply Hok. lia. }
+    rewrite Hgs. cbn [bind]. exists (g :: gs). split; [reflexivity|]. split; [cbn [length]; lia|].
+    split.
+    + constructor; [|exact Hgw]. split; [rewrite Hgc; exact Hcb|exact Hge].
+    + intros j c2 n2 g2 Hj Hm2 Hc2 Hg2. destruct j as [|j].
+      * rewrite Nat.add_0_r in Hm2, Hc2. cbn [nth_error] in Hg2.
+        assert (c2 = caps) by congruence. assert (n2 = cnt) by congruence. assert (g2 = g) by congruence.
+        subst. exact Hgc.
+      * cbn [nth_error] in Hg2. apply (Hgn j c2 n2 g2); try lia; try assumption.
+        -- replace (S i + j)%nat with (i + S j)%nat by lia. exact Hm2.
+        -- replace (S i + j)%nat with (i + S j)%nat by lia. exact Hc2.
+Qed.
+
+(* Groups(): group 0 as tidy leaves it plus the materialised others; if the stored words of every
+   group are in range (caps_in_bounds) then every capture of every group is inside the input,
+   group 0 has exactly one capture equal to the match, and each embedded capture is the last one *)
+Lemma groups_of_wf n idx len matches matchcount :
+  in_bounds n (idx, len) ->
+  (1 <= length matchcount)%nat -> length matches = length matchcount ->
+  (forall j caps cnt, (1 <= j)%nat -> nth_error matches j = Some caps ->
+                      nth_error matchcount j = Some cnt -> stored_ok n caps cnt) ->
+  exists gs, groups_of (group0 idx len) matches matchcount = Ok gs /\
+             length gs = length matchcount /\
+             Forall (group_wf n) gs /\
+             (exists others, gs = group0 idx len :: others) /\
+             g_caps (group0 idx len) = [(idx, len)] /\
+             group_embedded (group0 idx len) = (idx, len).
+Proof.
+  intros Hb H1 Hlen Hok. unfold groups_of, zlen.
+  replace (Z.of_nat (length matchcount) <? 1) with false by lia.
+  destruct (populate_spec n matches matchcount (length matchcount - 1) 1 ltac:(lia) Hlen)
+    as (gs & Hgs & Hgl & Hgw & _).
+  { intros j caps cnt Hj. apply Hok. lia. }
+  cbn [Z.of_nat Pos.of_succ_nat] in Hgs. rewrite Hgs. cbn [bind].
+  exists (group0 idx len :: gs). split; [reflexivity|]. split; [cbn [length]; lia|].
+  split; [|split; [eexists; reflexivity|split; reflexivity]].
+  constructor; [|exact Hgw]. split; [cbn [group0 g_caps]; constructor; [exact Hb|constructor]|reflexivity].
+Qed.
+
+(* ---------- packaged statements used by Properties/C08.v ---------- *)
+
+Lemma decode_total_full s :
+  zsum (widths_of s) = zlen s /\ Forall (fun w => 1 <= w <= 4) (widths_of s).
+Proof. split; [apply decode_total|apply decode_widths_range]. Qed.
+
+Lemma decode_encode_full rs :
+  decode (encode_string rs) = map (fun r => (sanitize r, Z.to_nat (encode_len r))) rs /\
+  (forallb valid_rune rs = true ->
+   decode (encode_string rs) = map (fun r => (r, Z.to_nat (rune_len r))) rs) /\
+  valid_utf8 (encode_string rs) = true.
+Proof.
+  split; [apply decode_encode_string|split; [apply decode_encode_valid|apply encode_string_valid]].
+Qed.
+
+Lemma offsets_spec_full :
+  (forall s, string_byte_offsets s = Ok (offsets_tbl (widths_of s))) /\
+  (forall s, new_byte_mapper s = None <-> all_one (widths_of s) = true) /\
+  (forall s fuel, (length s < fuel)%nat ->
+     bytes_to_runes_and_offsets fuel s = Ok (runes_of s, offsets_tbl (widths_of s))) /\
+  (forall items, read_runes items = (map fst items, psums 0 (map snd items))) /\
+  (forall rs, rune_byte_offsets rs = Ok (offsets_tbl (map encode_len rs))) /\
+  (forall rs, rune_byte_offsets rs = string_byte_offsets (encode_string rs)) /\
+  (forall s, valid_utf8 s = true -> rune_byte_offsets (runes_of s) = string_byte_offsets s).
+Proof.
+  split; [exact string_byte_offsets_spec|].
+  split; [exact new_byte_mapper_none|].
+  split; [intros s fuel H; apply bytes_to_runes_and_offsets_spec; exact H|].
+  split; [exact read_runes_spec|].
+  split; [exact rune_byte_offsets_spec|].
+  split; [exact rune_offsets_are_string_offsets|exact rune_string_offsets_coincide].
+Qed.
+
+Lemma routes_agree s fuel (i l : nat) :
+  (i + l <= length (decode s))%nat -> (length s < fuel)%nat ->
+  let bi := byte_pos (widths_of s) i in
+  let be := byte_pos (widths_of s) (i + l) in
+  byte_range (new_string_match_text s (runes_of s)) (Z.of_nat i) (Z.of_nat l) = Ok (bi, be - bi) /\
+  find_all_pair fuel (new_byte_mapper s) (Z.of_nat i) (Z.of_nat l) = Ok (bi, be) /\
+  (do ro <- bytes_to_runes_and_offsets fuel s ; compat_pair (snd ro) (Z.of_nat i) (Z.of_nat l)) = Ok (bi, be) /\
+  compat_pair (Some (snd (read_runes (map (fun p => (fst p, Z.of_nat (snd p))) (decode s)))))
+              (Z.of_nat i) (Z.of_nat l) = Ok (bi, be) /\
+  0 <= bi <= be /\ be <= zlen s.
+Proof.
+  intros H Hf bi be.
+  split; [apply byte_range_string; exact H|].
+  split; [apply find_all_pair_spec; assumption|].
+  split; [apply compat_bytes_pair_spec; assumption|].
+  split; [apply (compat_reader_pair_spec s i l H)|].
+  unfold bi, be. rewrite !byte_pos_boundary. pose proof (boundary_le s (i + l)).
+  rewrite boundary_add. unfold zlen. rewrite boundary_add in H0. lia.
+Qed.
+
+Lemma rune_input_byte_range rs (i l : nat) :
+  (i + l <= length rs)%nat ->
+  byte_range (new_match_text rs) (Z.of_nat i) (Z.of_nat l) =
+    Ok (zlen (encode_string (firstn i rs)), zlen (encode_string (firstn l (skipn i rs)))) /\
+  capture_string (new_match_text rs) (Z.of_nat i) (Z.of_nat l) =
+    Ok (encode_string (firstn l (skipn i rs))).
+Proof.
+  intros H. split.
+  - rewrite byte_range_runes by exact H. f_equal.
+    assert (G : forall q, byte_pos (elens rs) q = zlen (encode_string (firstn q rs))).
+    { clear. intros q. unfold byte_pos, elens, encode_string. revert q.
+      induction rs as [|r rs IH]; intros q; [destruct q; reflexivity|].
+      destruct q as [|q]; [reflexivity|]. cbn [map firstn zsum fold_right flat_map].
+      fold (zsum (firstn q (map encode_len rs))). rewrite IH, zlen_app, encode_length. reflexivity. }
+    rewrite !G. f_equal.
+    rewrite <- (firstn_skipn i (firstn (i + l) rs)).
+    rewrite firstn_firstn, Nat.min_l by lia.
+    unfold encode_string. rewrite flat_map_app, zlen_app.
+    rewrite skipn_firstn_comm. replace (i + l - i)%nat with l by lia. lia.
+  - unfold capture_string. rewrite capture_runes_spec by (cbn [mt_runes new_match_text]; exact H).
+    reflexivity.
+Qed.
